@@ -32,7 +32,7 @@ RULE = ("cases = every Word body within each bfs_* bound (built by the generator
         "text), and the export of the converted document must equal the first export (fix/stable); a deviation is reported under "
         "(phase, field, construct classes), minimal class sets only")
 
-LAWS = ["Inv_Order", "Inv_TextOnce", "Inv_Flags", "Inv_Options", "Inv_Reflexive", "Inv_Sensitive"]
+LAWS = ["Inv_Order", "Inv_TextOnce", "Inv_Flags", "Inv_Options", "Inv_Reflexive", "Inv_Sensitive", "Inv_StyleWins", "Inv_BlankNoTrace"]
 PAR = 6
 
 
@@ -164,9 +164,12 @@ def S(*xs):
 
 F16 = S("", "b", "i", "s", "c", "bi", "bs", "bc", "is", "ic", "sc", "bis", "bic", "bsc", "isc", "bisc")
 META = S("star", "star1", "us", "us1", "hash", "hashend", "pipe", "tick", "tick1", "gt", "brk", "link", "bs", "bs1", "lt", "lt1",
-         "amp", "amp1", "tilde", "numdot", "dash", "dash1", "fence")
+         "amp", "amp1", "tilde", "numdot", "dash", "dash1", "fence", "plus", "numpar", "num2")
+# the whole text is a block marker (or looks like one)
+MARK = S("m-dash", "m-plus", "m-star", "m-num", "m-par", "m-hash", "m-gt", "m-rule", "m-eq", "m-dashsp", "dashw", "decimal")
 SPACE = S("lead", "trail", "dbl", "ind4", "nl", "tab")
-ALLCLS = META | SPACE | S("w1", "two", "cjk", "empty")
+ALLCLS = META | MARK | SPACE | S("w1", "two", "cjk", "empty")
+STYLED = S("h", "q", "code", "li")
 ALLK = S("p", "h", "q", "code", "li", "empty", "tbl")
 SHAPES = S("1x1", "1x2", "1x3", "2x1", "2x2", "2x3", "3x1", "3x2", "3x3")
 T, F = True, False
@@ -175,6 +178,7 @@ B = lambda *xs: vlib.Raw("{" + ", ".join("TRUE" if x else "FALSE" for x in xs) +
 BASE = dict(
     MaxBlocks=1, MinBlocks=1, MaxRuns=1, Kinds=S("p"), HLevels=S(1), LiTypes=S("bul"), LiLevels=S(0),
     FlagNames=S(""), FirstCls=S("w1"), MoreCls=S("w2"), PosText=False, TblOffs=S(0), EmptyCls=S("none"), TblShapes=S("2x2"),
+    BlankKinds=S(), BlankOnly=S(), NumPrs=S(""),
     Gfms=B(T), Setexts=B(F), Metas=B(F), Bullets=S("-"), Emphs=S("*"), Langs=S(""), Wraps=S(0), Miscs=S("default"), OptArity=8,
     Apis=S("string"), Cos=S("ctor"), Origins=S("mem"), Warms=B(F), UOpts=S("default"),
 )
@@ -196,7 +200,8 @@ def cfg_of(ctx, name, lay, invariants, properties=()):
 def tiers(ctx):
     q = ctx.tier == "quick"
     mc = layer("CS_mix", MaxBlocks=2, Kinds=ALLK, HLevels=S(1, 7), FlagNames=S("", "ic"), FirstCls=S("w1", "star"),
-               EmptyCls=S("none", "ws"), TblShapes=S("1x1", "2x2"), Gfms=B(T, F), Setexts=B(F, T), OptArity=2,
+               EmptyCls=S("none", "ws"), BlankKinds=S("code", "li"), NumPrs=S("", "num"),
+               TblShapes=S("1x1", "2x2"), Gfms=B(T, F), Setexts=B(F, T), OptArity=2,
                UOpts=S("default", "simple", "setext", "wrapmeta"), **({} if q else dict(MaxRuns=2, MoreCls=S("lead"))))
     layers = {
         # every interleaving of paragraphs (of several kinds) and tables
@@ -215,7 +220,7 @@ def tiers(ctx):
         "text2": layer(MaxRuns=2, MinBlocks=1, Kinds=S("p") if q else S("p", "h", "li"), FirstCls=S("w3"), MoreCls=ALLCLS - S("w1", "two"),
                        FlagNames=S("") if q else S("", "i")),
         # every text class in a header cell and in a body cell
-        "cells": layer("CS_meta", Kinds=S("tbl"), TblShapes=S("1x1", "2x1") if q else S("1x1", "2x1", "1x2"), TblOffs=frozenset(range(19))),
+        "cells": layer("CS_meta", Kinds=S("tbl"), TblShapes=S("1x1", "2x1") if q else S("1x1", "2x1", "1x2"), TblOffs=frozenset(range(33))),
         "shapes": layer("CS_mix", Kinds=S("tbl"), TblShapes=SHAPES, TblOffs=S(0) if q else S(0, 3, 5)),
         # every kind with its parameters (heading levels 1-9, list types and levels, empty paragraphs, table shapes), in pairs
         "pairs": layer("CS_plain", MaxBlocks=2, Kinds=ALLK, PosText=True, HLevels=S(1, 2, 6, 7, 9) if q else frozenset(range(1, 10)),
@@ -224,6 +229,18 @@ def tiers(ctx):
         # every field of ExportOptions on the smallest documents of every kind
         "options": layer(Kinds=S("p", "h", "li", "code", "tbl"), HLevels=S(1, 3), FirstCls=S("two"), FlagNames=S("", "i"),
                          OptArity=2 if q else 8, **ALLOPT),
+        # the exporter's walk has a memory (in a list, in a code block): a blank heading / quote / code paragraph / list item /
+        # plain paragraph, then every kind of block with formatted text and with text that must be escaped ...
+        "carry": layer("CS_meta", MaxBlocks=2, MinBlocks=2, Kinds=ALLK, BlankKinds=STYLED, BlankOnly=S(1), EmptyCls=S("none", "ws"),
+                       FlagNames=S("", "b", "s"), FirstCls=S("star"), TblShapes=S("1x1")),
+        # ... and the same between two blocks (the blank paragraph's content rotates with the seed in the quick tier)
+        "carry3": layer("CS_meta", MaxBlocks=3, MinBlocks=3, Kinds=S("p", "li", "code", "empty") if q else ALLK, BlankKinds=STYLED, BlankOnly=S(2),
+                        EmptyCls=S(("none", "ws")[ctx.seed % 2]) if q else S("none", "ws"), FlagNames=S("", "b"), FirstCls=S("star"),
+                        TblShapes=S("1x1")),
+        # headings / quotes / code paragraphs that carry numbering properties (Word's numbered headings) next to list items and
+        # to each other, in both heading syntaxes
+        "numbered": layer(MaxBlocks=2, MinBlocks=2, Kinds=S("p", "h", "q", "code", "li"), NumPrs=S("", "bul") if q else S("", "bul", "num"),
+                          HLevels=S(1, 2) if q else S(1, 2, 3), PosText=True, Setexts=B(F, T), OptArity=1),
         # every way of calling the exporter, on documents built in memory and opened from saved bytes
         "calls": layer(MaxBlocks=2, Kinds=S("p", "tbl") if q else S("p", "h", "li", "tbl"), PosText=True, Gfms=B(T, F), Setexts=B(F, T), OptArity=1,
                        Apis=S("string", "bytes", "file", "batch", "auto"), Cos=S("ctor", "call", "both", "none"),
@@ -236,7 +253,8 @@ def tiers(ctx):
     cl = frozenset(rng.sample(sorted(ALLCLS - S("w1", "two")), 10)) | S("w1", "two")
     sim = dict(num=70, depth=40, limit=500) if q else dict(num=900, depth=60, limit=6000)
     simc = layer("CS_mix", MaxBlocks=6 if q else 8, MinBlocks=3, MaxRuns=3, Kinds=ALLK, HLevels=S(1, 2, 4, 8), LiTypes=S("bul", "num"),
-                 LiLevels=S(0, 2), FlagNames=fl, FirstCls=cl, MoreCls=cl, EmptyCls=S("none", "ws", "empty"), TblShapes=S("1x1", "2x2", "3x2", "2x3"),
+                 LiLevels=S(0, 2), FlagNames=fl, FirstCls=cl, MoreCls=cl, EmptyCls=S("none", "ws", "empty"), BlankKinds=STYLED, NumPrs=S("", "num"),
+                 TblShapes=S("1x1", "2x2", "3x2", "2x3"),
                  TblOffs=S(0, 4), OptArity=2, Apis=S("string", "file"), Cos=S("ctor", "call"), Origins=S("mem", "open"),
                  Warms=B(F), **ALLOPT)
     return mc, layers, simc, sim
